@@ -160,6 +160,33 @@ def build_plan(facts: dict, rng, tier: str):
                         pairs.append({'sup': bid, 'typ': sid, 'kind': 'shorthand-vs-' + bname})
                 else:
                     pairs.append({'sup': sid, 'typ': base_ids[0], 'kind': 'cetl-generate-only'})
+        # an option that exists in one configuration only (user-defined; documented as allowed in docs/templates.rst)
+        bid0, beff0 = base_ids[0], bases[0][1]
+        ucand = dict(beff0)
+        ucand['verif_user_option'] = 'x'
+        uid = S.add(lang, ucand, [], {'verif_user_option': 'x'}, kind='extra-key verif_user_option')
+        for a, b in ((bid0, uid), (uid, bid0), (uid, uid)):
+            pairs.append({'sup': a, 'typ': b, 'kind': 'key-set' if a != b else 'identical'})
+        # transpositions: two options exchange their values (any commutative aggregation of the fingerprints would cancel)
+        trans = []
+        domd = dict(dom)
+        keys_b = [k for k in beff0 if k in domd]
+        for i, k1 in enumerate(keys_b):
+            for k2 in keys_b[i + 1:]:
+                common = [v for v in domd[k1] if any(type(v) is type(w) and v == w for w in domd[k2])]
+                for ai, a in enumerate(common):
+                    for b in common[ai + 1:]:
+                        x, y = dict(beff0), dict(beff0)
+                        x[k1], x[k2], y[k1], y[k2] = a, b, b, a
+                        if valid(lang, x) and valid(lang, y) and not needs_cetl(list(x.values()) + list(y.values())):
+                            trans.append((k1, k2, a, b, x, y))
+        if tier == 'quick' and len(trans) > 4:
+            trans = rng.sample(trans, 4)
+        for k1, k2, a, b, x, y in trans:
+            xid = S.add(lang, x, [], {k: v for k, v in x.items() if beff0.get(k) != v}, kind='transposition %s/%s' % (k1, k2))
+            yid = S.add(lang, y, [], {k: v for k, v in y.items() if beff0.get(k) != v}, kind='transposition %s/%s' % (k1, k2))
+            pairs.append({'sup': xid, 'typ': yid, 'kind': 'transposition'})
+            pairs.append({'sup': yid, 'typ': xid, 'kind': 'transposition'})
         # random multi-option differences
         rnd = []
         tries = 0
@@ -252,7 +279,8 @@ Fixpoint idx (k : list N) (l : list (list N)) (n : N) : N :=
 Definition enc_diags (o_t : list (list N * oval)) (r : option (list diag)) : list N :=
   match r with
   | None => [0]
-  | Some ds => 1 :: map (fun d => match d with Mismatch k => 2 * idx k (map fst o_t) 0 | Undeclared k => 2 * idx k (map fst o_t) 0 + 1 end) ds
+  | Some ds => 1 :: map (fun d => match d with Mismatch k => 2 * idx k (map fst o_t) 0 + 2 | Undeclared k => 2 * idx k (map fst o_t) 0 + 3
+                                              | KeySetMismatch => 0 | KeySetUndeclared => 1 end) ds
   end.
 Definition enc_tbl (r : option (list ((list N * list N) * Z))) : list N :=
   match r with None => [0] | Some t => 1 :: map (fun a => Z.to_N (snd a)) t end.
@@ -341,6 +369,19 @@ def main(chk: core.Check, replay: typing.Optional[str] = None) -> int:
         chk.violation({'broken': broken + ['cannot read option facts: %r' % ex], 'what': 'properties.yaml / cli / cpp enum unreadable'}, found_input=False)
         chk.coverage.update({'evaluations': 0, 'distinct_nontrivial': 0, 'rule': 'n/a', 'samples': [], 'traces_validated_against_impl': 0})
         return chk.finish()
+    # what the template scanner sees in this tree: the key-set fingerprint symbol per language (None = not present)
+    ks_sym: typing.Dict[str, typing.Optional[str]] = {'c': None, 'cpp': None}
+    try:
+        for L_ in ('c', 'cpp'):
+            sides = [gen_c17.scan_loop(L_, kd, _gen.read_repo(gen_c17.TEMPLATES[(L_, kd)])) for kd in ('support', 'type')]
+            if sides[0]['keyset'] and sides[0]['keyset'] == sides[1]['keyset']:
+                ks_sym[L_] = sides[0]['keyset']
+    except Exception:
+        pass   # the translator already failed closed on this; reported through `broken`
+    chk.coverage['keyset_fingerprint_in_templates'] = {k: bool(v) for k, v in ks_sym.items()}
+    chk.coverage['live_full_theorem'] = {
+        'c': 'C17_guard_rejects_iff_differ_full_c' if ks_sym['c'] else 'C17_guard_full_refuted (+ C17_guard_rejects_iff_differ_c under equal key lists)',
+        'cpp': 'C17_guard_rejects_iff_differ_full_cpp' if ks_sym['cpp'] else 'C17_guard_rejects_iff_differ_cpp under equal key lists'}
     sets, pairs = build_plan(facts, chk.rng, chk.tier)
     if replay:
         doc = json.load(open(replay))
@@ -349,7 +390,7 @@ def main(chk: core.Check, replay: typing.Optional[str] = None) -> int:
     scratch = core.scratch('c17-')
     nvals = 80 if chk.tier == 'quick' else 1500
     values = gen_values(chk.rng, nvals)
-    job = {'scratch': scratch, 'dsdl': DSDL, 'root': 'demo', 'jobs': 6,
+    job = {'scratch': scratch, 'dsdl': DSDL, 'root': 'demo', 'jobs': 6, 'keyset': ks_sym,
            'sets': [{k: s[k] for k in ('id', 'lang', 'cli', 'overrides', 'omit')} for s in sets], 'pairs': []}
     set_by_id = {s['id']: s for s in sets}
     for p in pairs:
@@ -429,6 +470,7 @@ def main(chk: core.Check, replay: typing.Optional[str] = None) -> int:
         if not s['omit']:
             ask(('sup', s['id']), 'enc_tbl (rendered sav %s_support_side %s)' % (L, coq_opts(o)))
         ask(('typ', s['id']), 'enc_tbl (rendered sav %s_type_side %s)' % (L, coq_opts(o)))
+        ask(('kfp', s['id']), 'enc_sav (keyfp sav %s)' % coq_opts(o))
     for p in pairs:
         if eff.get(p['typ']) is None or (p['sup'] and eff.get(p['sup']) is None):
             continue
@@ -437,7 +479,7 @@ def main(chk: core.Check, replay: typing.Optional[str] = None) -> int:
         if p['sup'] is None:
             ask(('pair', p['id']), 'enc_diags %s (compile_omit sav %s_type_side %s)' % (ot, L, ot))
         else:
-            ask(('pair', p['id']), 'enc_diags %s (compile sav %s_support_side %s_type_side %s %s)' % (ot, L, L, coq_opts(eff[p['sup']]), ot))
+            ask(('pair', p['id']), 'enc_diags %s (compile_full sav %s_support_side %s_type_side %s %s)' % (ot, L, L, coq_opts(eff[p['sup']]), ot))
     for i, v in enumerate(values):
         ask(('val', i), 'enc_sav (sav (%s))' % coq_val(v))
         if isinstance(v, str):
@@ -465,12 +507,18 @@ def main(chk: core.Check, replay: typing.Optional[str] = None) -> int:
             m = M(('sup', s['id']))
             if m is not None:
                 want = {sym_of(L, facts, k): z for (k, _), z in zip(o, m[1:])} if m[0] == 1 else None
+                kf = M(('kfp', s['id']))
+                if want is not None and ks_sym[L]:
+                    want[ks_sym[L]] = kf[2] if kf and kf[0] == 1 else None
                 stats['header_number_tables_compared'] += 1
                 if want != r['defs']:
                     bad_model.append({'what': 'numbers defined by the support header', 'set': s, 'options': o, 'model': want, 'implementation': r['defs']})
         m = M(('typ', s['id']))
         if m is not None:
             want_l = [[sym_of(L, facts, k), z] for (k, _), z in zip(o, m[1:])] if m[0] == 1 else None
+            kf = M(('kfp', s['id']))
+            if want_l is not None and ks_sym[L]:
+                want_l = [[ks_sym[L], kf[2] if kf and kf[0] == 1 else None]] + want_l
             for h, a in r['asserts'].items():
                 stats['header_number_tables_compared'] += 1
                 if s['omit'] and L == 'cpp' and not a:
@@ -520,6 +568,8 @@ def main(chk: core.Check, replay: typing.Optional[str] = None) -> int:
             stats['key_set_pairs'] += 1
         elif dict(os_) == dict(ot_):
             stats['identical_pairs'] += 1
+        elif p['kind'] == 'transposition':
+            stats['transposition_pairs'] = stats.get('transposition_pairs', 0) + 1
         elif p['kind'] == 'random':
             stats['random_pairs'] += 1
         else:
@@ -577,14 +627,14 @@ def main(chk: core.Check, replay: typing.Optional[str] = None) -> int:
         # -- model
         m = M(('pair', p['id']))
         if m is not None:
-            if key_diff and not kf_live and chk.is_known(FINDING):
-                continue   # finding repaired: the quirk-faithful model does not apply to these pairs, the oracle above does
+            if key_diff and not kf_live and chk.is_known(FINDING) and not ks_sym[L]:
+                continue   # finding repaired in a way the model does not know: the oracle above judges these pairs
             if m[0] != 1:
                 bad_model.append(dict(case, what='model predicts a generation failure'))
                 continue
             keys_t = [k for k, _ in ot_]
-            mm = sorted({sym_of(L, facts, keys_t[x // 2]) for x in m[1:] if x % 2 == 0})
-            mu = sorted({sym_of(L, facts, keys_t[x // 2]) for x in m[1:] if x % 2 == 1})
+            mm = sorted({sym_of(L, facts, keys_t[(x - 2) // 2]) for x in m[1:] if x >= 2 and x % 2 == 0} | ({ks_sym[L] or '<key-set>'} if 0 in m[1:] else set()))
+            mu = sorted({sym_of(L, facts, keys_t[(x - 2) // 2]) for x in m[1:] if x >= 2 and x % 2 == 1} | ({ks_sym[L] or '<key-set>'} if 1 in m[1:] else set()))
             for h in heads:
                 if got_failed[h] != mm or got_undecl[h] != mu:
                     bad_model.append(dict(case, what='diagnostics of %s differ from the model' % h, model={'mismatch': mm, 'undeclared': mu}))
